@@ -76,6 +76,10 @@ pub struct UniCase {
     pub gate_after_close: bool,
     pub release_after: u8,
     pub senders: u8,
+    /// the streams are told to end (`channel.cancel_all_streams()`, then a few yields) right before `close(Duration::ZERO)` is called: they may have
+    /// ended -- and been dropped by their executors -- by then, with item futures still in flight; close must wait for those all the same
+    #[serde(default)]
+    pub pre_cancel: bool,
 }
 
 pub static UNI_CFGS: [(u8, u8); 4] = [(4, 1), (4, 2), (8, 4), (64, 8)];
@@ -179,6 +183,7 @@ where C: FullDuplexUniChannel<ItemType = u64, DerivedItemType = D> + Send + Sync
     if dbg { eprintln!("stage: calling close; running={} pending={}", uni.channel.running_streams_count(), uni.channel.pending_items_count());
         let u3 = Arc::clone(&uni); let w3 = Arc::clone(&world);
         std::thread::spawn(move || { std::thread::sleep(Duration::from_secs(5)); eprintln!("monitor: running={} pending={} open={} statuses={:?} finished_executors={} started={:?} finished={:?}", u3.channel.running_streams_count(), u3.channel.pending_items_count(), u3.channel.is_channel_open(), u3.stream_executors.iter().map(|x| status_name(&**x)).collect::<Vec<_>>(), u3.finished_executors_count.load(SeqCst), w3.started.lock().unwrap(), w3.finished.lock().unwrap()); }); }
+    if case.pre_cancel { uni.channel.cancel_all_streams(); for _ in 0..(2 + case.release_after % 4) { tokio::task::yield_now().await; } }
     let returned = uni.close(Duration::ZERO).await;
     if dbg { eprintln!("stage: close returned"); }
     let at_close = snapshot(&world, m, uni.channel.running_streams_count(), uni.channel.is_channel_open(), uni.channel.pending_items_count(), returned);
@@ -275,12 +280,12 @@ pub fn judge_chan(prefix: &str, exec: ExecKind, limit: u8, o: &ChanOutcome, expe
 
 pub fn uni_case_strategy() -> BoxedStrategy<UniCase> {
     let beh = prop_oneof![4 => Just(Beh::Ok), 3 => (1u8..4).prop_map(Beh::OkYields), 2 => Just(Beh::OkGated), 2 => Just(Beh::Err), 1 => (1u8..4).prop_map(Beh::ErrYields)];
-    (any::<u16>(), any::<u16>(), any::<u16>(), 1u8..=4, rt_strategy(), vec(beh, 0..24), any::<bool>(), 0u8..10, 1u8..=2)
-        .prop_map(|(k, c, e, limit, rt, mut items, gate_after_close, release_after, senders)| {
+    (any::<u16>(), any::<u16>(), any::<u16>(), 1u8..=4, rt_strategy(), vec(beh, 0..24), any::<bool>(), 0u8..10, 1u8..=2, prop_oneof![3 => Just(false), 1 => Just(true)])
+        .prop_map(|(k, c, e, limit, rt, mut items, gate_after_close, release_after, senders, pre_cancel)| {
             let kind = pick(&crate::chan::UNI_KINDS, k);
             let (buffer, max_streams) = pick(&UNI_CFGS, c);
             items.truncate(3 * buffer as usize);
-            UniCase { kind, buffer, max_streams, exec: pick(&UNI_EXECS, e), limit, rt, items, gate_after_close, release_after, senders }
+            UniCase { kind, buffer, max_streams, exec: pick(&UNI_EXECS, e), limit, rt, items, gate_after_close, release_after, senders, pre_cancel }
         }).boxed()
 }
 
@@ -291,6 +296,7 @@ pub fn uni_report(case: &UniCase, clause: Clause, known_is: &dyn Fn(&str) -> boo
     let mut classes = vec![format!("kind:{}", case.kind.short()), format!("cfg:B{}xM{}", case.buffer, case.max_streams), format!("fn:{}", case.exec.name()), format!("limit:{}", case.limit),
                            format!("runtime:{}", case.rt.name()), format!("senders:{}", case.senders)];
     if case.gate_after_close && behs.contains(&Beh::OkGated) { classes.push("gate-opens-after-close-was-called".into()); }
+    if case.pre_cancel { classes.push("streams-told-to-end-right-before-close".into()); }
     let fingerprint = { use std::hash::{Hash, Hasher}; let mut h = std::collections::hash_map::DefaultHasher::new(); format!("{clause:?}{case:?}").hash(&mut h); h.finish() };
     let prefix = "uni";
     let mut nontrivial = false;
@@ -333,7 +339,7 @@ impl Property for C06Uni {
     fn cases(&self, tier: Tier) -> u32 { match tier { Tier::Quick => 8_000, Tier::Thorough => 80_000 } }
     fn run(&self, case: &UniCase) -> RunReport { uni_report(case, Clause::C06, &known_for("C06")) }
     fn rule(&self) -> String {
-        "generated: Uni over the 5 channel kinds x (BUFFER_SIZE, MAX_STREAMS) in {(4,1),(4,2),(8,4)} x {spawn_executors | spawn_futures_executors | spawn_fallibles_executors | spawn_non_futures_non_fallibles_executors} x concurrency limit 1..4 x runtime {current_thread paused clock, multi_thread(2), multi_thread(4)} x 0..3*BUFFER_SIZE events over {ok, ok after k yields, ok once a gate opens, error, error after k yields} sent by 1..2 tasks with retry-on-full x the gate opening before close() or only after close() was called (by another task, after 0..9 yields); timeout Duration::ZERO; \
+        "generated: Uni over the 5 channel kinds x (BUFFER_SIZE, MAX_STREAMS) in {(4,1),(4,2),(8,4)} x {spawn_executors | spawn_futures_executors | spawn_fallibles_executors | spawn_non_futures_non_fallibles_executors} x concurrency limit 1..4 x runtime {current_thread paused clock, multi_thread(2), multi_thread(4)} x 0..3*BUFFER_SIZE events over {ok, ok after k yields, ok once a gate opens, error, error after k yields} sent by 1..2 tasks with retry-on-full x the gate opening before close() or only after close() was called (by another task, after 0..9 yields) x optionally channel.cancel_all_streams() + 2..5 yields right before close() (the streams may already have ended, their item futures not); timeout Duration::ZERO; \
          oracle: at the instant close() returns every accepted event has been fully processed (the pipeline records the END of each item's processing), close answered true, running_streams_count()==0, !is_channel_open(); after the Uni's close callback: processed == accepted as multisets (nothing discarded, nothing twice); \
          non-trivial: work was outstanding when close() was called (an item waits for a gate that opens only afterwards) or the runtime is multi-threaded".into()
     }
